@@ -35,6 +35,8 @@ struct Text {
     kind: &'static str,
     src: String,
     base: usize,
+    /// real location for programs that import sibling packages
+    path: Option<PathBuf>,
 }
 
 struct PGen {
@@ -131,8 +133,9 @@ const POOL: &[&str] = &[
 ];
 
 /// editor-like variants of one base program
-fn variants(base_idx: usize, base_id: &str, src: &str, rng: &mut Rng, max_prefix: usize, n_mut: usize, out: &mut Vec<Text>) {
-    out.push(Text { id: format!("{}:full", base_id), kind: "full", src: src.to_string(), base: base_idx });
+#[allow(clippy::too_many_arguments)]
+fn variants(base_idx: usize, base_id: &str, src: &str, path: &Option<PathBuf>, rng: &mut Rng, max_prefix: usize, n_mut: usize, out: &mut Vec<Text>) {
+    out.push(Text { id: format!("{}:full", base_id), kind: "full", src: src.to_string(), base: base_idx, path: path.clone() });
     let toks = token_bounds(src);
     // prefixes at token boundaries (all, or an even sample)
     let mut cuts: Vec<usize> = toks.iter().map(|t| t.1).collect();
@@ -143,7 +146,7 @@ fn variants(base_idx: usize, base_id: &str, src: &str, rng: &mut Rng, max_prefix
     }
     for c in &cuts {
         if *c < src.len() {
-            out.push(Text { id: format!("{}:pre{}", base_id, c), kind: "prefix-token", src: src[..*c].to_string(), base: base_idx });
+            out.push(Text { id: format!("{}:pre{}", base_id, c), kind: "prefix-token", src: src[..*c].to_string(), base: base_idx, path: path.clone() });
         }
     }
     // prefixes that end inside a token (on a char boundary, which a &str requires)
@@ -158,7 +161,7 @@ fn variants(base_idx: usize, base_id: &str, src: &str, rng: &mut Rng, max_prefix
             c += 1;
         }
         if c < src.len() {
-            out.push(Text { id: format!("{}:mid{}", base_id, c), kind: "prefix-midtoken", src: src[..c].to_string(), base: base_idx });
+            out.push(Text { id: format!("{}:mid{}", base_id, c), kind: "prefix-midtoken", src: src[..c].to_string(), base: base_idx, path: path.clone() });
         }
     }
     // token-level mutations
@@ -189,7 +192,7 @@ fn variants(base_idx: usize, base_id: &str, src: &str, rng: &mut Rng, max_prefix
                 ("trigger", format!("{}{}{}", &src[..e], trig, &src[e..]))
             }
         };
-        out.push(Text { id: format!("{}:mut{}-{}", base_id, m, what), kind: "mutation", src: text, base: base_idx });
+        out.push(Text { id: format!("{}:mut{}-{}", base_id, m, what), kind: "mutation", src: text, base: base_idx, path: path.clone() });
     }
 }
 
@@ -261,6 +264,30 @@ fn cst_tokens(src: &str, path: &Path) -> (MySyntaxNode, Vec<(String, u32, u32)>)
     (root, toks)
 }
 
+/// kinds of the three innermost nodes around the token that starts at `off`
+fn cst_context(src: &str, path: &Path, off: u32) -> String {
+    let result = parser::parse(path, src);
+    let root = MySyntaxNode::new_root(result.green_node);
+    if off as usize > src.len() {
+        return String::new();
+    }
+    match root.token_at_offset(off.into()).right_biased() {
+        Some(tok) => {
+            let mut v = Vec::new();
+            let mut cur = tok.parent();
+            while let Some(n) = cur {
+                if v.len() == 3 {
+                    break;
+                }
+                v.push(format!("{:?}", n.kind()));
+                cur = n.parent();
+            }
+            v.join(">")
+        }
+        None => String::new(),
+    }
+}
+
 fn token_index(toks: &[(String, u32, u32)], start: u32, end: u32) -> usize {
     toks.iter().position(|t| t.1 == start && t.2 == end).unwrap_or(usize::MAX)
 }
@@ -283,8 +310,8 @@ impl Shared {
 
 fn diag_messages(path: &Path, src: &str) -> Result<Vec<String>, String> {
     match pipeline::typecheck_with_packages_and_results(path, src) {
-        Ok((_, _, _, d)) => Ok(d.iter().map(|d| norm_digits(d.message())).collect()),
-        Err(e) => Ok(e.diagnostics().iter().map(|d| norm_digits(d.message())).collect()),
+        Ok((_, _, _, d)) => Ok(d.iter().map(|d| format!("[{}] {}", d.stage().as_str(), norm_digits(d.message()))).collect()),
+        Err(e) => Ok(e.diagnostics().iter().map(|d| format!("[{}] {}", d.stage().as_str(), norm_digits(d.message()))).collect()),
     }
 }
 
@@ -454,7 +481,7 @@ struct Tally {
 
 #[allow(clippy::too_many_arguments)]
 fn run_text(th: usize, ti: usize, t: &Text, dir: &Path, watch: &Watch, sh: &Shared, seed: u64, tie: bool, pos_cap: usize) {
-    let path = dir.join("main.gom");
+    let path = t.path.clone().unwrap_or_else(|| dir.join("main.gom"));
     let src = t.src.as_str();
     let mut rng = Rng::new(seed ^ (ti as u64).wrapping_mul(0x9E37));
     let poss = positions(src, &mut rng, pos_cap);
@@ -594,7 +621,7 @@ fn run_text(th: usize, ti: usize, t: &Text, dir: &Path, watch: &Watch, sh: &Shar
             Guarded::Done(Ok(m)) => m,
             _ => Vec::new(),
         };
-        let mut bases: BTreeMap<String, BTreeSet<String>> = BTreeMap::new();
+        let mut bases: BTreeMap<String, (BTreeSet<String>, bool)> = BTreeMap::new();
         for (name, kind) in items {
             let next_is_call = src[end..].starts_with('(');
             if *q == 1 && kind == "Field" && next_is_call {
@@ -602,13 +629,18 @@ fn run_text(th: usize, ti: usize, t: &Text, dir: &Path, watch: &Watch, sh: &Shar
                 continue;
             }
             if !bases.contains_key(kind) {
+                // a text with typer errors of its own is inconclusive: lookups on the receiver can fail
+                // because its type is already broken, whatever name is inserted
                 let b = match watch.guarded(th, [ti as u64, *l as u64, *c as u64, 8], || diag_messages(&path, &build(BOGUS, kind))) {
-                    Guarded::Done(Ok(m)) => blank(m, BOGUS).into_iter().collect(),
-                    _ => BTreeSet::new(),
+                    Guarded::Done(Ok(m)) => {
+                        let unrelated = m.iter().any(|x| x.starts_with("[typer]") && mentioning(std::slice::from_ref(x), BOGUS).is_empty());
+                        (blank(m, BOGUS).into_iter().collect(), unrelated)
+                    }
+                    _ => (BTreeSet::new(), true),
                 };
                 bases.insert(kind.clone(), b);
             }
-            let base = &bases[kind];
+            let (base, unrelated_typer_errors) = &bases[kind];
             let text = build(name, kind);
             let verdict = match watch.guarded(th, [ti as u64, *l as u64, *c as u64, 9], || diag_messages(&path, &text)) {
                 Guarded::Done(Ok(m)) => {
@@ -621,13 +653,20 @@ fn run_text(th: usize, ti: usize, t: &Text, dir: &Path, watch: &Watch, sh: &Shar
                             bad.push(x);
                         }
                     }
-                    if bad.is_empty() { "ok".to_string() } else { format!("unresolved:{}", esc_line(&bad.join(" | "))) }
+                    if bad.is_empty() {
+                        "ok".to_string()
+                    } else if *unrelated_typer_errors {
+                        format!("skip:inconclusive-text-has-other-type-errors:{}", esc_line(&bad.join(" | ")))
+                    } else {
+                        format!("unresolved:{}", esc_line(&bad.join(" | ")))
+                    }
                 }
                 Guarded::Done(Err(e)) => format!("error:{}", esc_line(&e)),
                 Guarded::Panic(p) => format!("panic:{}", crash::site_of(&p)),
             };
+            let ictx = if verdict == "ok" { String::new() } else { cst_context(&text, &path, start as u32) };
             sh.push(format!(
-                "CMP\t{}\t{}\t{}\t{}\t{}\t{}\t{}\t{}\t{}",
+                "CMP\t{}\t{}\t{}\t{}\t{}\t{}\t{}\t{}\t{}\t{}",
                 t.id,
                 if *q == 1 { "dot" } else { "colon" },
                 l,
@@ -636,16 +675,16 @@ fn run_text(th: usize, ti: usize, t: &Text, dir: &Path, watch: &Watch, sh: &Shar
                 kind,
                 verdict,
                 esc_line(&base.iter().cloned().collect::<Vec<_>>().join(" | ")),
-                esc_line(&text)
+                esc_line(&text),
+                ictx
             ));
         }
     }
     // hover agreement on programs the compiler accepts
     let mut hov_n = 0;
-    if t.kind == "full" || t.kind == "mutation" {
+    if (t.kind == "full" || t.kind == "mutation") && t.path.is_none() {
         if let Guarded::Done(Ok(comp)) = watch.guarded(th, [ti as u64, 0, 0, 10], || pipeline::compile(&path, src)) {
             let mut seen = HashSet::new();
-            let croot = MySyntaxNode::new_root(comp.green_node.clone());
             for (s, e, kind, ty) in collect_tast(&comp.tast) {
                 if (e as usize) > src.len() || !seen.insert((s, e)) {
                     continue;
@@ -656,20 +695,7 @@ fn run_text(th: usize, ti: usize, t: &Text, dir: &Path, watch: &Watch, sh: &Shar
                     continue;
                 }
                 let e = s + word.len() as u32;
-                let ctx = match croot.token_at_offset(s.into()).right_biased() {
-                    Some(tok) => {
-                        let p1 = tok.parent();
-                        let p2 = p1.as_ref().and_then(|p| p.parent());
-                        let p3 = p2.as_ref().and_then(|p| p.parent());
-                        format!(
-                            "{}>{}>{}",
-                            p1.map(|p| format!("{:?}", p.kind())).unwrap_or_default(),
-                            p2.map(|p| format!("{:?}", p.kind())).unwrap_or_default(),
-                            p3.map(|p| format!("{:?}", p.kind())).unwrap_or_default()
-                        )
-                    }
-                    None => String::new(),
-                };
+                let ctx = cst_context(src, &path, s);
                 // cursor on the first byte of the identifier and on its last byte
                 for off in [s, if e > s + 1 { e - 1 } else { s }] {
                     let (l, c) = line_col_of(src, off);
@@ -727,38 +753,61 @@ pub fn main(args: &util::Args) {
     let _ = std::env::set_current_dir(&cwd);
     let mut rng = Rng::new(args.seed);
     let mut texts: Vec<Text> = Vec::new();
-    let mut bases: Vec<(String, String)> = Vec::new();
+    let mut bases: Vec<(String, String, Option<PathBuf>)> = Vec::new();
     if let Some(f) = args.rest.iter().position(|a| a == "--file").and_then(|i| args.rest.get(i + 1)) {
         let src = std::fs::read_to_string(f).expect("read --file");
-        texts.push(Text { id: "replay".into(), kind: "full", src, base: 0 });
+        texts.push(Text { id: "replay".into(), kind: "full", src, base: 0, path: None });
     } else {
         if let Ok(rd) = std::fs::read_dir(util::verif_root().join("corpus/C20")) {
             let mut ps: Vec<_> = rd.filter_map(|e| e.ok().map(|e| e.path())).collect();
             ps.sort();
             for p in ps {
                 if let Ok(s) = std::fs::read_to_string(&p) {
-                    bases.push((format!("corpus:{}", p.file_name().unwrap().to_string_lossy()), s));
+                    bases.push((format!("corpus:{}", p.file_name().unwrap().to_string_lossy()), s, None));
                 }
             }
         }
         for (i, s) in SEEDS.iter().enumerate() {
-            bases.push((format!("seed{}", i), s.to_string()));
+            bases.push((format!("seed{}", i), s.to_string(), None));
         }
         let ngen = args.n.unwrap_or(if thorough { 60 } else { 10 });
         for i in 0..ngen {
             let mut g = PGen { rng: rng.fork(i as u64) };
-            bases.push((format!("gen{}:{}", args.seed, i), g.program()));
+            bases.push((format!("gen{}:{}", args.seed, i), g.program(), None));
+        }
+        // token soup: what a file looks like while it is being pasted together
+        for i in 0..(if thorough { 200 } else { 40 }) {
+            let mut r = rng.fork(50_000 + i as u64);
+            let n = 3 + r.below(25);
+            let mut s = String::new();
+            for _ in 0..n {
+                s.push_str(*r.pick(POOL));
+                if r.chance(2, 3) {
+                    s.push(' ');
+                }
+            }
+            bases.push((format!("soup{}:{}", args.seed, i), s, None));
         }
         let n_small = bases.len();
         let limit = if thorough { 5000 } else { 900 };
         for d in util::corpus_pipeline_dirs() {
             if let Ok(s) = std::fs::read_to_string(d.join("main.gom")) {
                 if s.len() <= limit {
-                    bases.push((format!("repo:{}", d.file_name().unwrap().to_string_lossy()), s));
+                    bases.push((format!("repo:{}", d.file_name().unwrap().to_string_lossy()), s, None));
                 }
             }
         }
-        for (bi, (id, src)) in bases.iter().enumerate() {
+        // multi-package projects at their real location (the queries discover the sibling packages)
+        if let Ok(rd) = std::fs::read_dir(util::repo_root().join("crates/compiler/src/tests/package")) {
+            let mut ps: Vec<_> = rd.filter_map(|e| e.ok().map(|e| e.path())).filter(|p| p.join("main.gom").exists()).collect();
+            ps.sort();
+            for p in ps.into_iter().take(if thorough { 8 } else { 3 }) {
+                if let Ok(s) = std::fs::read_to_string(p.join("main.gom")) {
+                    bases.push((format!("pkg:{}", p.file_name().unwrap().to_string_lossy()), s, Some(p.join("main.gom"))));
+                }
+            }
+        }
+        for (bi, (id, src, path)) in bases.iter().enumerate() {
             let small = bi < n_small;
             let (max_prefix, n_mut) = match (small, thorough) {
                 (true, false) => (400, 24),
@@ -767,8 +816,13 @@ pub fn main(args: &util::Args) {
                 (false, true) => (60, 30),
             };
             let mut r = rng.fork(1000 + bi as u64);
-            variants(bi, id, src, &mut r, max_prefix, n_mut, &mut texts);
+            variants(bi, id, src, path, &mut r, max_prefix, n_mut, &mut texts);
         }
+    }
+    // the same text reached by two routes (e.g. two prefixes of one-token soups) is explored once
+    {
+        let mut seen: HashSet<(String, Option<PathBuf>)> = HashSet::new();
+        texts.retain(|t| seen.insert((t.src.clone(), t.path.clone())));
     }
     let sh = Arc::new(Shared { lines: Mutex::new(Vec::new()), out: args.out.clone() });
     let nthreads = std::thread::available_parallelism().map(|n| n.get()).unwrap_or(4).min(16);
